@@ -33,6 +33,12 @@ def run(ctx):
     _c01.r121(ctx, 'R19.9')
     from . import c08 as _c08
     _c08.r84(ctx, ctx.repo['util'])
-    _cs.general_rules(ctx, 'R19', ['writer.write', 'writer.write_multi', 'writer.partition_on_columns', 'writer.make_part_file', 'api.ParquetFile.write_row_groups', 'api.ParquetFile._write_common_metadata', 'writer.write_common_metadata'])
+    # "a fresh open sees exactly the new content": what the part writer puts into the new files (partition groups, unit
+    # conversions) and what a fresh handle predicts for them (null-aware dtypes) are part of that
+    _c08.r81(ctx, ctx.repo['writer'])
+    _c01.r19_floored(ctx, 'R19.10')
+    from . import c17 as _c17
+    _c17.r176(ctx, 'R19.11')
+    _cs.general_rules(ctx, 'R19', ['writer.write', 'writer.write_multi', 'writer.partition_on_columns', 'writer.make_part_file', 'api.ParquetFile.write_row_groups', 'api.ParquetFile._write_common_metadata', 'writer.write_common_metadata', 'api.ParquetFile._dtypes'])
     ar.open_close_pairing_rule(ctx, 'R19.6')
     ar.single_pass_data_rule(ctx, 'R19.7')
